@@ -1,0 +1,20 @@
+//go:build verif
+
+// Machine-checked contracts for package cabfile (comment-only; see /verif/DESIGN.md).
+
+package cabfile
+
+//@ func Digest
+//@   property C11
+//@   nopanic
+//@   requires r != nil && (hashFunc == 0 || (1 <= hashFunc && hashFunc <= 19))
+//@   allocbound 0 65535
+//@   allocbound 1 65536
+//@   allocbound 2 1
+//@   loop 0 sig "for _, v := range pbuf" invariant -1 <= rangeindex && rangeindex < len(pbuf)
+//@
+//@ func add32
+//@   property C11
+//@   nopanic
+//@   requires offset != nil
+//@   modifies *offset
